@@ -1922,7 +1922,7 @@ package adaptation
 //@   props C08 C17 C18
 //@   requires wfPlugin(p) && cfgLockFree() && p.regC != nil && p.closeC != nil && (p.impl.ttrpcImpl != nil ==> p.impl.wasmImpl == nil)
 //@   modifies object(p), lock(p.Mutex), lock(global("adaptation.timeoutCfgLock")), calls("multiplex.Mux.Close"), calls("multiplex.Mux.Unblock"), calls("(*github.com/containerd/ttrpc.Client).Close"), calls("(*github.com/containerd/ttrpc.Server).Close"), calls("net.Listener.Close")
-//@   modifies calls("(*os.Process).Kill"), calls("(*os.Process).Wait"), calls("(*os.Process).Release"), calls("api.Plugin.Configure"), calls("api.PluginService.Configure"), calls("time.After"), calls("go"), calls("chan.recv")
+//@   modifies calls("plugin.stop"), calls("(*os.Process).Kill"), calls("(*os.Process).Wait"), calls("(*os.Process).Release"), calls("api.Plugin.Configure"), calls("api.PluginService.Configure"), calls("time.After"), calls("go"), calls("chan.recv")
 //@   ensures [cfg]     cfgLockFree() && !held(p.Mutex)
 //@   ensures [ok]      result == nil ==> wfPlugin(p) && p.closed == old(p.closed)
 //@   ensures [closed]  result != nil ==> p.closed
@@ -2016,8 +2016,37 @@ package adaptation
 //@                   && result.0.cmd == callret("os/exec.Command", old(ncalls("os/exec.Command")), 0)
 
 // A plugin launched by NRI is killed and reaped when it is stopped; others are left alone.
+// The synchronization callback of startPlugins (the second closure; the first is the deferred
+// clean-up): a pre-installed plugin that fails to synchronize is stopped (killed and reaped, see
+// plugin.stop) and dropped; the others are kept, in order.  Every started plugin is either kept or
+// stopped: stops + kept == started, and the plugin that is stopped is the one that just failed.
+//@ func Adaptation.startPlugins$2
+//@   props C18 C09
+//@   requires cfgLockFree() && (forall i int :: 0 <= i && i < len(plugins) ==> wfPlugin(plugins[i]))
+//@   modifies @writes
+//@   at call plugin.stop assert arg0 == plugin
+//@   ensures [noerr]   result.1 == nil
+//@   ensures [stopped] ncalls("plugin.stop") - old(ncalls("plugin.stop")) + len(plugins) == old(len(plugins))
+//@   ensures [kept]    forall i int :: 0 <= i && i < len(plugins) ==> wfPlugin(plugins[i])
+//@   loop 1 invariant 0 <= idx + 1 && idx + 1 <= len(startedPlugins) && len(startedPlugins) == old(len(plugins)) && cfgLockFree()
+//@   loop 1 invariant forall i int :: 0 <= i && i < len(startedPlugins) ==> wfPlugin(startedPlugins[i])
+//@   loop 1 invariant ncalls("plugin.stop") - old(ncalls("plugin.stop")) + len(plugins) == idx + 1
+//@   loop 1 invariant forall i int :: 0 <= i && i < len(plugins) ==> wfPlugin(plugins[i])
+// The deferred clean-up of startPlugins (the first closure): when startPlugins fails, every plugin
+// that was started is stopped, each once and in order; when it succeeds, none is.
+//@ func Adaptation.startPlugins$1
+//@   props C18
+//@   requires forall i int :: 0 <= i && i < len(plugins) ==> plugins[i] != nil && allocated(plugins[i].impl)
+//@   modifies @writes
+//@   ensures [none] retErr == nil ==> ncalls("plugin.stop") == old(ncalls("plugin.stop"))
+//@   ensures [all]  retErr != nil ==> ncalls("plugin.stop") == old(ncalls("plugin.stop")) + len(plugins)
+//@   ensures [each] retErr != nil ==> forall i int :: 0 <= i && i < len(plugins) ==> callarg("plugin.stop", old(ncalls("plugin.stop")) + i, 0) == plugins[i]
+//@   loop 1 invariant 0 <= idx + 1 && idx + 1 <= len(plugins) && retErr != nil && ncalls("plugin.stop") == old(ncalls("plugin.stop")) + idx + 1
+//@   loop 1 invariant forall i int :: 0 <= i && i < len(plugins) ==> plugins[i] != nil && allocated(plugins[i].impl) && plugins[i] == old(plugins[i])
+//@   loop 1 invariant forall i int :: 0 <= i && i <= idx ==> callarg("plugin.stop", old(ncalls("plugin.stop")) + i, 0) == plugins[i]
 //@ func plugin.stop
 //@   props C18
+//@   logs plugin.stop
 //@   requires p != nil && allocated(p.impl)
 //@   modifies calls("(*os.Process).Kill"), calls("(*os.Process).Wait"), calls("(*os.Process).Release")
 //@   ensures [ok]    result == nil
